@@ -324,4 +324,19 @@ def ecosSolution (exitFlag : ℤ) (pcost : K) (solx : ℕ → K) : Sol K :=
   if exitFlag = 0 ∨ exitFlag = 10 then { objval := some pcost, x := some solx, status := exitFlag }
   else { objval := none, x := none, status := exitFlag }
 
+/-- `grb_solver`: Gurobi exposes `ObjVal` / `X` whenever it holds an incumbent (`inc`; otherwise the
+attribute access raises and the `except AttributeError` branch builds `Solution(nan, None, …)`); the
+statuses `INFEASIBLE = 3`, `INF_OR_UNBD = 4`, `UNBOUNDED = 5` never give a solution - the incumbent
+of an unbounded MILP is not one (repaired: it used to be returned) -/
+def grbSolution (status : ℤ) (inc : Bool) (objval : K) (x : ℕ → K) : Sol K :=
+  if status = 3 ∨ status = 4 ∨ status = 5 then { objval := none, x := none, status := status }
+  else if inc then { objval := some objval, x := some x, status := status }
+  else { objval := none, x := none, status := status }
+
+/-- `ort_solver`: `if status == pywraplp.Solver.OPTIMAL (= 0): Solution(Objective().Value(),
+[x.solution_value()], …) else Solution(nan, None, …)` -/
+def ortSolution (status : ℤ) (objval : K) (x : ℕ → K) : Sol K :=
+  if status = 0 then { objval := some objval, x := some x, status := status }
+  else { objval := none, x := none, status := status }
+
 end RsomeV.Solvers
